@@ -27,3 +27,8 @@ def start_set_update(pm, new):
     pm.start()
     pm.data[:] = new
     pm.update()
+
+
+def scan_twice(master_a, master_b):
+    master_a.fast_scan()
+    return master_b.fast_scan()
